@@ -74,7 +74,9 @@ PROPS = {
         "drivers": [drv("bytes", "debug"), drv("bytes", "release", tiers=T)],
     },
     "C06": {
-        "mc": L0_QUICK + L0_THOROUGH,
+        "mc": L0_QUICK + L0_THOROUGH + [
+            algo("Radix.tla", "Radix_q.cfg"), algo("Radix.tla", "Radix_cal1.cfg", expect="violation"),
+            algo("Radix.tla", "Radix_cal2.cfg", expect="violation"), algo("Radix.tla", "Radix_t.cfg", workers=14, heap="10g", tiers=T)],
         "drivers": [drv("text", "debug"), drv("text", "release", tiers=T)],
     },
     "C05": {
